@@ -31,14 +31,14 @@ def showM (st : MState Float) : String :=
 def handleGnb (toks : List String) : Option String := do
   let vs ← argF64 toks "vs"; let p ← argNat toks "p"
   let hist ← parseHist toks
-  match nbFitHistory (gnbStep vs p) [] p none hist with
+  match nbFitHistory (gnbStep vs p) [] (nbGuard p) none hist with
   | none => some "err"
   | some sts => some ("ok " ++ " ".intercalate (sts.map showG))
 
 def handleMnb (toks : List String) : Option String := do
   let a ← argF64 toks "alpha"; let p ← argNat toks "p"
   let hist ← parseHist toks
-  match nbFitHistory (mnbStep a p) [] p none hist with
+  match nbFitHistory (mnbStep a p) [] (fun _ => true) none hist with
   | none => some "err"
   | some sts => some ("ok " ++ " ".intercalate (sts.map showM))
 
@@ -61,7 +61,7 @@ def handleGnbPred (toks : List String) : Option String := do
   let vs ← argF64 toks "vs"; let p ← argNat toks "p"
   let hist ← parseHist toks
   let qs ← argF64s2 toks "q"
-  match nbFitHistory (gnbStep vs p) [] p none hist with
+  match nbFitHistory (gnbStep vs p) [] (nbGuard p) none hist with
   | none => some "err"
   | some sts => some (predLine (gnbJll twoPi 0.5) (sts.getLastD []) qs)
 
@@ -69,7 +69,7 @@ def handleMnbPred (toks : List String) : Option String := do
   let a ← argF64 toks "alpha"; let p ← argNat toks "p"
   let hist ← parseHist toks
   let qs ← argF64s2 toks "q"
-  match nbFitHistory (mnbStep a p) [] p none hist with
+  match nbFitHistory (mnbStep a p) [] (fun _ => true) none hist with
   | none => some "err"
   | some sts => some (predLine mnbJll (sts.getLastD []) qs)
 
